@@ -254,17 +254,36 @@ class Unit:
         if c.loops:
             loops = rsparse.find_loops(body)
             edits = []
+            # anchor resolution: (1) same ordinal and same header text; (2) relaxed: an unclaimed loop with the same header text
+            # (loops were added or removed before it); (3) relaxed: same ordinal, header text changed; (4) skipped
+            claimed = {}
             for lc in c.loops:
-                if lc.ordinal >= len(loops):
-                    # relaxed anchor: the loop this contract was written for is gone; the contract is skipped and the
-                    # function-level obligations decide
-                    self.relaxed.append('%s: loop #%d not found (%d loops), loop contract skipped' % (key, lc.ordinal, len(loops)))
+                if lc.ordinal < len(loops) and loops[lc.ordinal][1] == lc.fingerprint:
+                    claimed[id(lc)] = lc.ordinal
+            used = set(claimed.values())
+            for lc in c.loops:
+                if id(lc) in claimed:
                     continue
-                kw, hdr, bopen = loops[lc.ordinal]
-                if hdr != lc.fingerprint:
-                    # relaxed anchor: the loop header text changed; keep the contract on the loop with the same ordinal
-                    # (the obligation names stay the same, so a failure is still "an obligation that held and now fails")
-                    self.relaxed.append('%s: loop #%d header is %r, contract written for %r' % (key, lc.ordinal, hdr, lc.fingerprint))
+                cand = [k for k, l in enumerate(loops) if l[1] == lc.fingerprint and k not in used]
+                if cand:
+                    k = min(cand, key=lambda k: abs(k - lc.ordinal))
+                    claimed[id(lc)] = k
+                    used.add(k)
+                    self.relaxed.append('%s: loop contract #%d %r moved to loop #%d (same header text)' % (key, lc.ordinal, lc.fingerprint[:50], k))
+            for lc in c.loops:
+                if id(lc) in claimed:
+                    continue
+                if lc.ordinal < len(loops) and lc.ordinal not in used:
+                    claimed[id(lc)] = lc.ordinal
+                    used.add(lc.ordinal)
+                    self.relaxed.append('%s: loop #%d header is %r, contract written for %r' % (key, lc.ordinal, loops[lc.ordinal][1][:60], lc.fingerprint[:60]))
+                else:
+                    self.relaxed.append('%s: loop #%d %r not found (%d loops), loop contract skipped' % (key, lc.ordinal, lc.fingerprint[:50], len(loops)))
+            for lc in c.loops:
+                if id(lc) not in claimed:
+                    continue
+                lc_ord = claimed[id(lc)]
+                kw, hdr, bopen = loops[lc_ord]
                 sent = ''
                 if self.sentinel and any(sec.startswith('invariant') for sec, _ in lc.clauses) and not any('loop_isolation(false)' in a for a in c.attrs):
                     tag = '%s#loop%d' % (key, lc.ordinal)
